@@ -159,3 +159,10 @@ Proof.
     destruct (nth_error (pools s0) i); [|exact H]. destruct (k_pending k); [|exact H]. destruct (complete_pool k). exact H. }
   apply H. simpl. destruct (started s) eqn:E; [exact E|reflexivity].
 Qed.
+
+Lemma catchup_eq rounds : forall pool sess n, fst (fst (catchup pool sess n rounds)) = snd (fst (catchup pool sess n rounds)).
+Proof.
+  induction rounds as [|r rest IH]; intros pool sess n; simpl.
+  - destruct (pool =? sess) eqn:E; simpl; [apply Z.eqb_eq, E|reflexivity].
+  - destruct (pool =? sess) eqn:E; simpl; [apply Z.eqb_eq, E|apply IH].
+Qed.
